@@ -46,6 +46,9 @@ type image struct {
 	// built by bpm.go: the manifests must parse and PCR0_DATA must be measurable
 	manifests bool
 	onlyIntel bool // skip the walker/selectors part (same FFS layout as the bundled image)
+	// sessions.go: images that hold the same volumes at other offsets form a family
+	family      string
+	sessionOnly bool // parsed and indexed for the sessions only
 }
 
 type visited struct {
@@ -259,131 +262,156 @@ func (r *run) walker(addOffset int64, nStopVariants int) (reported []visited) {
 			lit := fmt.Sprintf("CWalk %s %s %s %s", tl, rmLit(rm, ids), gal.Bool(fb), obsRanges(rs, err, panicked))
 			idx := ctx.Add("walk", lit, map[string]interface{}{"op": "NodeVisitor.Run", "image": r.im.name, "fallback": fb,
 				"add_offset": addOffset, "stop_variant": variant, "nodes": len(r.gt.all), "reported": len(vis)}, true)
-			if panicked && addOffset < 0 {
-				// rows with a negative adjusted offset are dropped by NameToRangesMap (documented TODO),
-				// the by-count lookup then runs off the end; Node.AddOffset has no user in the suite
-				// and is not part of the property: correspondence only (the model says Panic too)
-				ctx.Count("negative-add-offset-panics")
-				continue
-			}
-			if panicked || err != nil {
-				ctx.OracleFail(idx, fmt.Sprintf("NodeVisitor.Run failed on a parseable image: err=%v panic=%s", err, msg), siteWalker,
-					map[string]interface{}{"image": r.im.name, "fallback": fb})
-				continue
-			}
-			if variant == 0 {
-				// every node is visited, in fiano's own order
-				if len(vis) != len(r.gt.all) {
-					ctx.OracleFail(idx, fmt.Sprintf("walker visited %d nodes, the tree has %d", len(vis), len(r.gt.all)), siteWalker,
-						map[string]interface{}{"image": r.im.name})
-					continue
-				}
-				ctx.OracleOK()
-				if !fb && addOffset == 0 {
-					reported = vis
-				}
-			}
-			if variant > 0 {
-				// the callback's answer "do not continue" prunes exactly the subtree below that node
-				var want []*gnode
-				for _, n := range r.gt.all {
-					pruned := false
-					for a := n.parent; a != nil; a = a.parent {
-						pruned = pruned || stop[a.f]
-					}
-					if !pruned {
-						want = append(want, n)
-					}
-				}
-				same := len(want) == len(vis)
-				for i := 0; same && i < len(vis); i++ {
-					same = vis[i].f == want[i].f
-				}
-				if same {
-					ctx.OracleOK()
-				} else {
-					first := -1
-					for i := 0; i < len(vis) && i < len(want); i++ {
-						if vis[i].f != want[i].f {
-							first = want[i].idx
-							break
-						}
-					}
-					if first < 0 && len(vis) < len(want) {
-						first = want[len(vis)].idx
-					}
-					var stops []int
-					for _, n := range r.gt.all {
-						if stop[n.f] {
-							stops = append(stops, n.idx)
-						}
-					}
-					ctx.OracleFail(idx, fmt.Sprintf("callback answered 'stop' at %d node(s): it was then invoked for %d nodes, the tree without the subtrees below those nodes has %d (first difference at node #%d)", len(stops), len(vis), len(want), first), siteWalker,
-						map[string]interface{}{"image": r.im.name, "fallback": fb, "stop_at_nodes": stops})
-				}
-			}
-			var bad, known []string
-			for i, v := range vis {
-				n := r.gt.byFW[v.f]
-				if n == nil || (variant == 0 && n != r.gt.all[i]) {
-					bad = append(bad, fmt.Sprintf("visit #%d is not node #%d of the tree", i, i))
-					continue
-				}
-				rg := v.r
-				ok := false
-				switch {
-				case rg.Offset == math.MaxUint64:
-					// unknown is always allowed by the property; but the walker exists to
-					// locate volumes and their files: outside any section they must be known
-					ok = !(n.name != "" && n.located && !n.underSec && addOffset >= 0)
-					if !ok {
-						bad = append(bad, "offset unknown for a top-level object: "+r.nodeDescr(n, rg))
-						continue
-					}
-				default:
-					adj := rg
-					adj.Offset -= uint64(addOffset)
-					if r.exact(n, adj) {
-						ok = true
-					} else if fb {
-						for a := n.parent; a != nil && !ok; a = a.parent {
-							ok = r.exact(a, adj)
-						}
-					}
-				}
-				if ok {
-					ctx.OracleOK()
-					continue
-				}
-				a := n
-				if fb {
-					a = n.anchor()
-				}
-				if a.d23() {
-					known = append(known, r.nodeDescr(n, rg))
-				} else {
-					bad = append(bad, r.nodeDescr(n, rg))
-				}
-			}
-			in := map[string]interface{}{"image": r.im.name, "fallback": fb, "add_offset": addOffset, "stop_variant": variant}
-			if r.im.synth {
-				in["image_outline"] = r.im.outline
-				if len(r.im.data) <= 0x3000 {
-					in["image_hex"] = fmt.Sprintf("%x", r.im.data)
-				}
-			}
-			if len(known) > 0 {
-				in["nodes"] = head(known, 6)
-				ctx.OracleFailKnown(idx, findD23, fmt.Sprintf("%d visited node(s) below a non-processed section get a Range that does not address their bytes; first: %s", len(known), known[0]), siteWalker, in)
-				r.d23 = append(r.d23, known...)
-			}
-			if len(bad) > 0 {
-				in["nodes"] = head(bad, 6)
-				ctx.OracleFail(idx, fmt.Sprintf("%d visited node(s) whose Range is neither unknown nor the node's bytes; first: %s", len(bad), bad[0]), siteWalker, in)
+			done := r.judgeWalk(idx, vis, err, panicked, msg, fb, addOffset, stop, map[string]interface{}{"stop_variant": variant})
+			if done && variant == 0 && !fb && addOffset == 0 {
+				reported = vis
 			}
 		}
 	}
 	return
+}
+
+// judgeWalk: the oracle of one NodeVisitor.Run that was started at the root of r's image
+// (case idx). stop: the nodes at which the callback answered "do not continue". extra goes into
+// the failing input. Returns whether the run completed without stops and visited every node.
+func (r *run) judgeWalk(idx int, vis []visited, err error, panicked bool, msg string, fb bool, addOffset int64,
+	stop map[fianoUEFI.Firmware]bool, extra map[string]interface{}) (complete bool) {
+	ctx := r.ctx
+	noStops := len(stop) == 0
+	with := func(m map[string]interface{}) map[string]interface{} {
+		for k, v := range extra {
+			m[k] = v
+		}
+		return m
+	}
+	past := ""
+	if h, ok := extra["history"]; ok {
+		past = fmt.Sprintf("; this was Run #%v of ONE NodeVisitor object, earlier Runs: %v", extra["run"], h)
+	}
+	if panicked && addOffset < 0 {
+		// rows with a negative adjusted offset are dropped by NameToRangesMap (documented TODO),
+		// the by-count lookup then runs off the end; Node.AddOffset has no user in the suite
+		// and is not part of the property: correspondence only (the model says Panic too)
+		ctx.Count("negative-add-offset-panics")
+		return false
+	}
+	if panicked || err != nil {
+		ctx.OracleFail(idx, fmt.Sprintf("NodeVisitor.Run failed on a parseable image (%s): err=%v panic=%s%s", r.im.name, err, msg, past), siteWalker,
+			with(map[string]interface{}{"image": r.im.name, "fallback": fb, "add_offset": addOffset}))
+		return false
+	}
+	if noStops {
+		// every node is visited, in fiano's own order
+		if len(vis) != len(r.gt.all) {
+			ctx.OracleFail(idx, fmt.Sprintf("walker visited %d nodes, the tree has %d", len(vis), len(r.gt.all)), siteWalker,
+				with(map[string]interface{}{"image": r.im.name, "fallback": fb, "add_offset": addOffset}))
+			return false
+		}
+		ctx.OracleOK()
+		complete = true
+	} else {
+		// the callback's answer "do not continue" prunes exactly the subtree below that node
+		var want []*gnode
+		for _, n := range r.gt.all {
+			pruned := false
+			for a := n.parent; a != nil; a = a.parent {
+				pruned = pruned || stop[a.f]
+			}
+			if !pruned {
+				want = append(want, n)
+			}
+		}
+		same := len(want) == len(vis)
+		for i := 0; same && i < len(vis); i++ {
+			same = vis[i].f == want[i].f
+		}
+		if same {
+			ctx.OracleOK()
+		} else {
+			first := -1
+			for i := 0; i < len(vis) && i < len(want); i++ {
+				if vis[i].f != want[i].f {
+					first = want[i].idx
+					break
+				}
+			}
+			if first < 0 && len(vis) < len(want) {
+				first = want[len(vis)].idx
+			}
+			var stops []int
+			for _, n := range r.gt.all {
+				if stop[n.f] {
+					stops = append(stops, n.idx)
+				}
+			}
+			ctx.OracleFail(idx, fmt.Sprintf("callback answered 'stop' at %d node(s): it was then invoked for %d nodes, the tree without the subtrees below those nodes has %d (first difference at node #%d)%s", len(stops), len(vis), len(want), first, past), siteWalker,
+				with(map[string]interface{}{"image": r.im.name, "fallback": fb, "stop_at_nodes": stops}))
+		}
+	}
+	var bad, known []string
+	for i, v := range vis {
+		n := r.gt.byFW[v.f]
+		if n == nil || (noStops && n != r.gt.all[i]) {
+			bad = append(bad, fmt.Sprintf("visit #%d is not node #%d of the tree", i, i))
+			continue
+		}
+		rg := v.r
+		ok := false
+		switch {
+		case rg.Offset == math.MaxUint64:
+			// unknown is always allowed by the property; but the walker exists to
+			// locate volumes and their files: outside any section they must be known
+			ok = !(n.name != "" && n.located && !n.underSec && addOffset >= 0)
+			if !ok {
+				bad = append(bad, "offset unknown for a top-level object: "+r.nodeDescr(n, rg))
+				continue
+			}
+		default:
+			adj := rg
+			adj.Offset -= uint64(addOffset)
+			if r.exact(n, adj) {
+				ok = true
+			} else if fb {
+				for a := n.parent; a != nil && !ok; a = a.parent {
+					ok = r.exact(a, adj)
+				}
+			}
+		}
+		if ok {
+			ctx.OracleOK()
+			continue
+		}
+		a := n
+		if fb {
+			a = n.anchor()
+		}
+		if a.d23() {
+			known = append(known, r.nodeDescr(n, rg))
+		} else {
+			bad = append(bad, r.nodeDescr(n, rg))
+		}
+	}
+	in := with(map[string]interface{}{"image": r.im.name, "fallback": fb, "add_offset": addOffset})
+	if r.im.synth {
+		in["image_outline"] = r.im.outline
+		if len(r.im.data) <= 0x3000 {
+			in["image_hex"] = fmt.Sprintf("%x", r.im.data)
+		}
+	}
+	if len(known) > 0 {
+		in["nodes"] = head(known, 6)
+		ctx.OracleFailKnown(idx, findD23, fmt.Sprintf("%d visited node(s) below a non-processed section get a Range that does not address their bytes; first: %s", len(known), known[0]), siteWalker, in)
+		r.d23 = append(r.d23, known...)
+	}
+	if len(bad) > 0 {
+		in["nodes"] = head(bad, 6)
+		what := fmt.Sprintf("%d visited node(s) whose Range is neither unknown nor the node's bytes; first: %s", len(bad), bad[0])
+		if addOffset != 0 {
+			what += fmt.Sprintf(" (Node.AddOffset=%#x: reported offsets are expected %#x above the true ones)", addOffset, addOffset)
+		}
+		ctx.OracleFail(idx, what+past, siteWalker, in)
+	}
+	return complete
 }
 
 func head(s []string, n int) []string {
@@ -432,9 +460,16 @@ func (r *run) dataRanges(d *types.Data, bi *biosimage.BIOSImage) ([]pkgbytes.Ran
 		if !ok {
 			return nil, fmt.Sprintf("range outside [4GiB-size, 4GiB): %v", ref.Ranges)
 		}
+		kept := append([]pkgbytes.Range{}, ref.Ranges...)
 		theirs, err := ref.ResolvedRanges()
 		if err != nil || !sameRanges([]pkgbytes.Range(theirs), own) {
 			return nil, fmt.Sprintf("ResolvedRanges()=%v err=%v, by address=4GiB-size+offset: %v", theirs, err, own)
+		}
+		// resolving is a question, not an operation on the reference: it still holds the
+		// addresses it held, and asking again gives the same offsets
+		again, err := ref.ResolvedRanges()
+		if !sameRanges(ref.Ranges, kept) || err != nil || !sameRanges([]pkgbytes.Range(again), own) {
+			return nil, fmt.Sprintf("after ResolvedRanges() the reference holds %v (it held %v); a second ResolvedRanges() = %v err=%v, the first = %v", ref.Ranges, kept, again, err, own)
 		}
 		out = append(out, own...)
 	}
